@@ -58,13 +58,27 @@ func c14MaxFields() int {
 	return 2
 }
 
+// c14OnlyFloat: every stored field value is a float; c14SmallInts: integer field values come from a
+// small concrete menu (harnesses whose arithmetic mixes integers and doubles: the int->double
+// conversion of an arbitrary 64-bit term is what makes those queries slow).
+var c14OnlyFloat, c14SmallInts bool
+
 func c14SymField(name string, kinds int) c14Field {
-	f := c14Field{name: vr.Tok(name + "_f"), kind: vr.Choose(name+"_vk", kinds)}
+	f := c14Field{name: vr.Tok(name + "_f")}
+	if c14OnlyFloat {
+		f.kind = hvFloat
+	} else {
+		f.kind = vr.Choose(name+"_vk", kinds)
+	}
 	switch f.kind {
 	case hvStr:
 		f.s = vr.Tok(name + "_v")
 	case hvInt:
-		f.n = vr.Int(name + "_n")
+		if c14SmallInts {
+			f.n = []int{0, 7, -3}[vr.Choose(name+"_n", 3)]
+		} else {
+			f.n = vr.Int(name + "_n")
+		}
 	case hvFloat:
 		f.f = vr.Float(name + "_x")
 		vr.Assume(f.f == f.f) // stored values are never NaN
@@ -404,12 +418,26 @@ func Verif_C14_HDel() {
 	vr.Reach("end")
 }
 
-func Verif_C14_HIncrBy() {
+// Verif_C14_HIncrBy: arbitrary 64-bit increment on string / integer fields (overflow included).
+func Verif_C14_HIncrBy() { c14HIncrBy(false) }
+
+// Verif_C14_HIncrByOnFloatField: the field holds an arbitrary double; increments 1, -3, 1000.
+func Verif_C14_HIncrByOnFloatField() { c14HIncrBy(true) }
+
+func c14HIncrBy(onFloat bool) {
 	s := verifServer()
 	k := vr.Tok("k")
-	p := c14Preset(s, k, "h", 3)
+	var p c14Pre
+	var delta int
+	if onFloat {
+		c14OnlyFloat = true
+		p = c14Preset(s, k, "h", 3)
+		delta = []int{1, -3, 1000}[vr.Choose("delta", 3)]
+	} else {
+		p = c14Preset(s, k, "h", 2)
+		delta = vr.Int("delta")
+	}
 	f := vr.Tok("f")
-	delta := vr.Int("delta")
 	reply, err, panicked := verifRun(s, "HINCRBY", k, f, strconv.Itoa(delta))
 	vr.Assert(!panicked, "C14.hincrby.nopanic")
 	if panicked {
@@ -464,6 +492,7 @@ func Verif_C14_HIncrBy() {
 }
 
 func Verif_C14_HIncrByFloat() {
+	c14SmallInts = true
 	s := verifServer()
 	k := vr.Tok("k")
 	p := c14Preset(s, k, "h", 3)
